@@ -98,7 +98,7 @@ def run(chk):
     def how(t):
         return "PYTHONPATH=%s python -c 'import hy; m = list(hy.read_many(%r)); ...start_line/start_column/end_line/end_column'" % (vlib.REPO, t)
 
-    n_prog = 30000 if thorough else 4000
+    n_prog = 30000 if thorough else 3200
     # corpus first: reproducers of repaired defects (known_findings.json: fixed entries)
     corpus = []
     cdir = os.path.join(vlib.VERIF, "corpus", "C21")
